@@ -205,6 +205,14 @@ fn grid(level: u32) -> Vec<Case> {
         let mut cs = a.cs.clone(); cs.extend(b.cs.clone());
         out.push(Case { text: format!("{} {}", a.text, b.text), rr: vec![cs] });
     } }
+    // a few triples at every level (a list whose proper prefix is already empty)
+    for a in red.iter().take(9) { for b in red.iter().take(9) { for c in red.iter().skip(19).take(9) {
+        if a.known_dev || b.known_dev || c.known_dev { continue; }
+        let mut cs = a.cs.clone(); cs.extend(b.cs.clone()); cs.extend(c.cs.clone());
+        out.push(Case { text: format!("{} {} {}", a.text, b.text, c.text), rr: vec![cs] });
+        let mut cs2 = c.cs.clone(); cs2.extend(a.cs.clone()); cs2.extend(b.cs.clone());
+        out.push(Case { text: format!("{} {} {}", c.text, a.text, b.text), rr: vec![cs2] });
+    } } }
     if level > 0 {
         for a in &red { for b in &red { for c in red.iter().take(10) {
             let mut cs = a.cs.clone(); cs.extend(b.cs.clone()); cs.extend(c.cs.clone());
